@@ -147,7 +147,9 @@ def stimuli(tier, seed, ctx):
     for _ in range(n // 10):
         sec, us = rnd.randint(0, 5000), rnd.choice([0, 0, 500000, 250000])
         cases.append({'k': 'period', 'sec': sec, 'us': us, 'neg': rnd.random() < 0.5,
-                      'isfloat': us != 0 or rnd.random() < 0.5})
+                      'isfloat': us != 0 or rnd.random() < 0.5,
+                      # through time_period(), or as a block argument that accepts a duration
+                      'site': rnd.choice(['', '', 'stop_timeout', 'init_timeout', 'interval'])})
     cases.append({'k': 'none'})
     for b in BAD:
         cases.append({'k': 'bad', 'text': b, 'via': 'convert'})
@@ -205,7 +207,18 @@ def execute(stim):
             num = c['sec'] + c['us'] / 10 ** 6 if c['isfloat'] else c['sec']
             if c['neg']:
                 num = -num if num else -1
-            r = utils.time_period(num)
+            site = c.get('site')
+            if site == 'interval' and num <= 0:
+                site = ''               # (an interval must be positive)
+            if site:
+                import edzed
+                edzed.reset_circuit()
+                kw = {'interval': 1, site: num}
+                blk = edzed.ValuePoll('vp', func=lambda: 0, **kw)
+                r = blk._interval if site == 'interval' else getattr(blk, site)
+                edzed.reset_circuit()
+            else:
+                r = utils.time_period(num)
             sec, us, exact = _split(r, 10 ** 6)
             t = {'sec': c['sec'], 'us': c['us'] if c['isfloat'] else 0}
             lines.append({'ev': 'period', 'neg': c['neg'], 't': t, 'r': {'sec': sec, 'us': us},
